@@ -41,7 +41,8 @@ def replay(rec, ctx):
 
     def bad(what, detail):
         viol.append({"sig": f"{m}:{what}" + ("" if rec.get("prior", "none") == "none" else f"@after-other-{rec['prior']}"), "detail": f"{detail} | dens={rec['dens']} temp={rec['temp']} ne={rec['ne']} te={rec['te']}"})
-    EC.prior_phase(rec, rates, model, lambda: model.emission(Point3D(0.1, 0.2, 0.3), Vector3D(1, 0, 0), Spectrum(LO, HI, BINS)), calls, ad, pl)
+    EC.prior_phase(rec, rates, model, lambda: model.emission(Point3D(0.1, 0.2, 0.3), Vector3D(1, 0, 0), Spectrum(LO, HI, BINS)), calls, ad, pl,
+                   evaluate_elsewhere=lambda: model.emission(Point3D(*EC.ELSEWHERE), Vector3D(1, 0, 0), Spectrum(LO, HI, BINS)))
     sp = Spectrum(LO, HI, BINS)
     try:
         out = model.emission(Point3D(0.1, 0.2, 0.3), Vector3D(1, 0, 0), sp)
@@ -88,7 +89,7 @@ def replay(rec, ctx):
     elif m == "tcx": want_calls = {("tcx", s, "c6") for s in rec["donors"]}
     elif m == "trp": want_calls = {("plt", "c5"), ("prb", "c6"), ("prc", "c6")}
     elif m == "brems": want_calls = {("gaunt",)}
-    if got != want_calls:
+    if not (got <= want_calls | set(calls.earlier) and want_calls <= got | set(calls.earlier)):
         bad("provider-asked-for-other-coefficients", f"asked {sorted(got)}, rule prescribes {sorted(want_calls)}")
     # (T) arguments of the coefficient evaluations: PEC(n_e, T_e), PEC_d(n_e, T_e, T_d), g_ff(Z, T_e, wavelength in the window)
     ne, te = rec["ne"] * nu, float(rec["te"])
